@@ -25,6 +25,7 @@ Contract file directives (one per line, everything up to the next `//@` line is 
   //@ in <qual> before "<anchor>"         payload inserted immediately before the anchor text
   //@ in <qual> body-start                payload inserted right after the body's `{`
   //@ in <qual> before-tail               payload inserted before the last statement / tail expression of the body
+  //@ file-before "<anchor>" / file-after "<anchor>"   payload inserted before/after a unique anchor of the file
   //@ block <header> start|end            payload inserted right after the `{` / before the `}` of the
                                           impl or trait block with that header (e.g. `trait SchemeManager`,
                                           `SchemeManager for LocalSchemeManager`)
@@ -277,6 +278,16 @@ def annotate(repo, contracts, out):
                     ins = p + len(anchor)
                 else:
                     ins = p
+                cur.add(ins, ins, text, orig)
+                continue
+            m = re.match(r'file-(before|after)\s+' + _q + '$', head)
+            if m:
+                anchor = unq(m.group(2))
+                idxs = [x.start() for x in re.finditer(re.escape(anchor), cur.src)]
+                if len(idxs) != 1:
+                    raise Lost('%s: file anchor %r occurs %d times' % (cur.rel, anchor, len(idxs)))
+                text, orig = payload_text(d, clauses)
+                ins = idxs[0] if m.group(1) == 'before' else idxs[0] + len(anchor)
                 cur.add(ins, ins, text, orig)
                 continue
             m = re.match(r'block\s+(.+?)\s+(start|end)$', head)
